@@ -35,7 +35,7 @@ Has(e, f) == f \in DOMAIN e
 
 StartPos == Decode([r |-> <<261944453, 67977560, 0, 0, 0, 0, 475842920, 669809813>>, stm |-> 0, cr |-> 15, ep |-> 0])
 NoGo == [active |-> FALSE, toks |-> <<>>]
-Fresh == [pos |-> StartPos, hist |-> <<StartPos>>, go |-> NoGo, ready |-> FALSE, eof |-> FALSE, quit |-> FALSE, tend |-> 0, dead |-> FALSE, cmd |-> "startpos", skip |-> FALSE, base |-> <<StartPos>>, gos |-> 0]
+Fresh == [pos |-> StartPos, hist |-> <<StartPos>>, go |-> NoGo, ready |-> 0, eof |-> FALSE, quit |-> FALSE, tend |-> 0, dead |-> FALSE, cmd |-> "startpos", skip |-> FALSE, base |-> <<StartPos>>, gos |-> 0]
 
 RECURSIVE Play(_, _, _)
 Play(p, texts, i) ==
@@ -88,7 +88,7 @@ InStep(e) ==
                           legal |-> legal, infos |-> <<>>, answers |-> 0, foreign |-> 0,
                           probe |-> IF Has(e, "probe") THEN e.probe ELSE "", timed |-> Has(e, "timed") /\ e.timed,
                           notime |-> Has(e, "notime") /\ e.notime]]
-  ELSE IF Has(e, "isready") THEN [sc EXCEPT !.ready = TRUE]
+  ELSE IF Has(e, "isready") THEN [sc EXCEPT !.ready = @ + 1]
   ELSE IF Has(e, "quit") THEN [sc EXCEPT !.quit = TRUE, !.tend = e.t]
   \* ucinewgame: the properties say nothing about the board a go finds after it when no position command follows (the pinned
   \* code keeps its board, an engine that returns to the start position is as right): nothing is judged until the next
@@ -158,7 +158,8 @@ OutFails(e) ==
                         ELSE IF s.go.active /\ Foreign(e) /\ s.go.foreign >= MaxForeign
                         THEN {<<"C18", "lines-of-a-previous-search", D(e.info.raw)>>} ELSE {})
     [] e.k = "bestmove" -> BestFails(e)
-    [] e.k = "readyok" -> {}
+    \* a `readyok` nobody asked for: some line that is not an isready command was not ignored
+    [] e.k = "readyok" -> IF s.ready = 0 THEN {<<"C17", "readyok-without-isready", D(s.cmd)>>} ELSE {}
     [] OTHER -> {}
 
 OutStep(e) ==
@@ -171,7 +172,7 @@ OutStep(e) ==
               ELSE IF ms = {} THEN [s EXCEPT !.go.answers = 1]
               ELSE LET np == Apply(s.pos, CHOOSE x \in ms : TRUE) IN
                    [s EXCEPT !.pos = np, !.hist = Append(@, np), !.go.answers = 1]
-    [] e.k = "readyok" -> [s EXCEPT !.ready = FALSE]
+    [] e.k = "readyok" -> [s EXCEPT !.ready = IF @ > 0 THEN @ - 1 ELSE 0]
     [] OTHER -> s
 
 MemoStep(e) ==
@@ -341,8 +342,8 @@ Step(e) ==
   CASE e.ev = "reset" -> Fresh
     [] e.ev = "in" -> InStep(e)
     [] e.ev = "out" -> OutStep(e)
-    [] e.ev = "timeout" -> [s EXCEPT !.go = NoGo, !.ready = FALSE]
-    [] e.ev = "closed" -> [s EXCEPT !.go = NoGo, !.ready = FALSE]
+    [] e.ev = "timeout" -> [s EXCEPT !.go = NoGo, !.ready = 0]
+    [] e.ev = "closed" -> [s EXCEPT !.go = NoGo, !.ready = 0]
     [] e.ev = "eofin" -> [s EXCEPT !.eof = TRUE, !.tend = e.t]
     [] e.ev = "exit" -> [s EXCEPT !.dead = TRUE]
     [] OTHER -> s
